@@ -83,7 +83,11 @@ def evaluate(chk, run):
 def run(chk, tier, seed):
     named, ks, npres = case_list(tier, seed)
     pres = [le.presentation(seed, i) for i in range(npres)]
-    subsets = {"all_upto": 7, "sampled": 0} if tier == "quick" else {"all_upto": 8, "sampled": 4}
+    # every proper subset of the small job sets of the *deterministic* part of the case list (corpus + exhaustive F): the
+    # known findings about them are explicit lists that hold for every seed; seeded definitions get seeded subsets only
+    det = {n for n, _d in le.corpus_defs() + le.f_defs(5 if tier == "quick" else 6)}
+    subsets = {"all_upto": 7, "sampled": 0, "deterministic_names": det} if tier == "quick" else \
+        {"all_upto": 7, "sampled": 3, "deterministic_names": det}
     lr = le.LearnRun(named, ks, pres, seed=seed, max_jobs=400 if tier == "quick" else 500, subsets=subsets).run()
     ntr = evaluate(chk, lr)
     term = jobdef.check_termination([d for _, d in named[:120]], 2)
